@@ -1,7 +1,7 @@
 (* Props/C01.v — parse -> write round trip (model level; see LEVEL_TEXT of harness/props/c01.py for what is
    decided by the correspondence and by the oracle instead). *)
 From Coq Require Import List String Ascii ZArith Bool.
-From GfaV Require Import Base.Py Model.Codec Model.Line Model.Doc Proofs.CodecP Proofs.RoundTripP.
+From GfaV Require Import Base.Py Model.Codec Model.Line Model.Doc Proofs.CodecP Proofs.RoundTripP Proofs.LineRoundTripP.
 Import ListNotations.
 Open Scope string_scope.
 Open Scope list_scope.
@@ -40,6 +40,71 @@ Theorem C01_grouping_idempotent : forall a b l,
   g (g l) = g l.
 Proof. exact two_blocks_idempotent. Qed.
 Print Assumptions C01_grouping_idempotent.
+
+(* ---------- one line: the constructor followed by the writer ---------- *)
+(* For every text, validation level and version (known or not): if the constructor accepts the text as a line of a
+   standard record type (H S L C P E G F O U), the written line is the text, field by field: the same record type, the
+   same number of fields in the same order, every tag with its name and its datatype; the only difference is that each
+   value is replaced by its canonical spelling.  Nothing is added, nothing is dropped. *)
+Theorem C01_written_line_is_the_text_with_canonical_values : forall O vl version s l rt fs,
+  parse_line O vl version s = Ok l -> standard (ln_class l) -> split_on tab s = rt :: fs ->
+  line_to_s O l =
+  join_with (String tab EmptyString)
+    (rt :: canon_pos O (rc_pos (ln_class l)) (rc_dt (ln_class l)) fs
+        ++ map (canon_tag O) (skipn (List.length (rc_pos (ln_class l))) fs)).
+Proof. exact write_is_the_text_with_canonical_values. Qed.
+Print Assumptions C01_written_line_is_the_text_with_canonical_values.
+
+Theorem C01_tag_keeps_name_and_datatype : forall O s n dt v,
+  parse_tag s = Ok (n, dt, v) -> canon_tag O s = (n ++ ":" ++ dt ++ ":" ++ canon O dt v)%string.
+Proof. exact canon_tag_keeps_name_and_type. Qed.
+Print Assumptions C01_tag_keeps_name_and_datatype.
+
+(* when the values are spelled canonically already, the written line is the text itself, and reading it back gives the
+   same line: parse(write(parse T)) = parse T, line by line *)
+Theorem C01_written_line_is_the_text : forall O vl version s l,
+  parse_line O vl version s = Ok l -> standard (ln_class l) ->
+  Forall (canonical_field O) (ln_pos l) -> Forall (canonical_field O) (ln_tags l) ->
+  line_to_s O l = s.
+Proof. exact write_of_parsed_line. Qed.
+Print Assumptions C01_written_line_is_the_text.
+
+Theorem C01_line_fixed_point : forall O vl version s l,
+  parse_line O vl version s = Ok l -> standard (ln_class l) ->
+  Forall (canonical_field O) (ln_pos l) -> Forall (canonical_field O) (ln_tags l) ->
+  parse_line O vl version (line_to_s O l) = Ok l.
+Proof. exact parse_of_written_line. Qed.
+Print Assumptions C01_line_fixed_point.
+
+(* a comment is written as it was read, whatever it contains *)
+Theorem C01_comment_is_kept : forall O vl version s l,
+  parse_line O vl version s = Ok l -> rc_name (ln_class l) = "Comment" -> line_to_s O l = s.
+Proof. exact write_of_parsed_comment. Qed.
+Print Assumptions C01_comment_is_kept.
+
+(* joining the fields of a split line gives the line back (the other direction of C01_split_join) *)
+Theorem C01_join_split : forall c s, join_with (String c EmptyString) (split_on c s) = s.
+Proof. exact join_split. Qed.
+Print Assumptions C01_join_split.
+
+(* non-vacuity: a GFA1 link with three tags (one of them a float respelled by the oracle) and a GFA2 edge; the hypotheses
+   of the theorems hold for the second *)
+Local Open Scope string_scope.
+Example C01_line_witness :
+  let t := String tab EmptyString in
+  let O := mkOracle (fun s => if String.eqb s "1e1" then "10.0" else s) (fun s => Some s) in
+  let s1 := "L" ++ t ++ "A" ++ t ++ "+" ++ t ++ "B" ++ t ++ "-" ++ t ++ "4M" ++ t ++ "RC:i:+07" ++ t ++ "xx:f:1e1" ++ t ++ "yy:Z:a b" in
+  let s2 := "E" ++ t ++ "e" ++ t ++ "A+" ++ t ++ "B-" ++ t ++ "0" ++ t ++ "4" ++ t ++ "6" ++ t ++ "10$" ++ t ++ "4M" ++ t ++ "TS:i:3" in
+  match parse_line O 1 (Some "gfa1") s1, parse_line O 1 (Some "gfa2") s2 with
+  | Ok l1, Ok l2 =>
+      line_to_s O l1 = "L" ++ t ++ "A" ++ t ++ "+" ++ t ++ "B" ++ t ++ "-" ++ t ++ "4M" ++ t ++ "RC:i:7" ++ t ++ "xx:f:10.0" ++ t ++ "yy:Z:a b"
+      /\ line_to_s O l2 = s2
+      /\ forallb (fun f => String.eqb (canon O (snd (fst f)) (snd f)) (snd f)) (ln_pos l2 ++ ln_tags l2)%list = true
+      /\ rc_name (ln_class l2) = "EdgeGFA2"
+  | _, _ => False
+  end.
+Proof. vm_compute. repeat split. Qed.
+Local Open Scope list_scope.
 
 Example C01_witness :
   canon_int "+007" = "7" /\ canon_int "-0" = "0" /\
